@@ -133,7 +133,7 @@ def run(tier: str, seed: int) -> int:
         with_call, with_lit = programs(fdef, call, value, pos)
         opts = whole.default_opts(append_version=False, inline_functions=r.random() < 0.5, compact=r.random() < 0.3)
         a = whole.compile_real(with_call, opts)
-        if "error" in a and "Timeout during evaluating constexpr" in a["error"]["description"]:
+        if "error" in a and common.load_timeout(a["error"]["description"]):
             stats["timeouts_skipped"] = stats.get("timeouts_skipped", 0) + 1
             continue
         b = whole.compile_real(with_lit, opts)
@@ -177,7 +177,7 @@ def run(tier: str, seed: int) -> int:
         with_lit = body.replace("{A}", repr(v1)).replace("{B}", repr(v2))
         opts = whole.default_opts(append_version=False, inline_functions=r.random() < 0.5)
         a = whole.compile_any(with_call, opts)
-        if "error" in a and "Timeout during evaluating constexpr" in a["error"]["description"]:
+        if "error" in a and common.load_timeout(a["error"]["description"]):
             stats["timeouts_skipped"] = stats.get("timeouts_skipped", 0) + 1
             continue
         b = whole.compile_real(with_lit, opts)
